@@ -21,8 +21,14 @@ REPO_UNITS = [
 ]
 
 
-def declarations(an):
+def declarations(an, source=None):
     """list of (decl, crate facts)"""
+    if source is not None:
+        import hashlib
+        f, prog, crate = source
+        h = hashlib.sha256(open(f, "rb").read()).hexdigest()[:10]
+        data = an.tool_json("declscan-gen-" + h, lambda: [DECLSCAN, f])
+        return [(d, prog, crate, False) for d in data["decls"]], data.get("errors", [])
     from ..core import sub_hash
     files = [os.path.join(VERIF, "corpus", "src", "lib.rs")]
     unit_of = {files[0]: ("corpus", "verif_corpus", False)}
@@ -279,8 +285,8 @@ def _field_names_in(term):
     return {x[2] for x in mir.walk_expr(term) if x[0] == "field"}
 
 
-def validate(an, rep, only=None):
-    decls, errors = declarations(an)
+def validate(an, rep, only=None, source=None):
+    decls, errors = declarations(an, source)
     R1 = rep.rule("D1", "struct skeleton: writer = new_v0 iff no evolution steps else new, on the type's metadata static; "
                         "write_field(name) for the non-transient fields in declaration order; finish.  Reader = version "
                         "byte; ==0 -> new_v0 else new(stored_version); read_optional_field iff the type is spelled Option, "
@@ -357,6 +363,7 @@ def validate(an, rep, only=None):
             n_enum += 1
             _check_enum(R2, R3, R4, R6, R7, tag, decl, m, W, rb, crate, where)
     R1.floor("struct declarations", n_struct, 30 if not only else 0)
+    rep.extra.setdefault("corpus_samples", [])
     R2.floor("enum declarations", n_enum, 15 if not only else 0)
     rep.extra["programs"] = programs
     rep.extra["disagreements_checked"] = sum(r.obligations for r in (R1, R2, R3, R4, R6, R7))
